@@ -334,7 +334,7 @@ fn server_search(seed: u64) {
     let mut x = seed.wrapping_mul(6364136223846793005).wrapping_add(1442695040888963407);
     let mut next = move |n: u64| { x = x.wrapping_mul(6364136223846793005).wrapping_add(1442695040888963407); (x >> 33) % n };
     let values: Vec<Vec<u8>> = vec![b"v".to_vec(), b"".to_vec(), b"\r\n".to_vec(), b"a\r\nb\0c".to_vec(), vec![0xff, 0xfe, 0x00], b"$5\r\nhello\r\n".to_vec(), vec![b'x'; 5000], b"+OK\r\n".to_vec(), b"-1".to_vec()];
-    let keys: Vec<&[u8]> = vec![b"k0", b"k1", b"k2", b"\xc3\xa9t\xc3\xa9"];
+    let keys: Vec<&[u8]> = vec![b"k0", b"k1", b"k2", b"\xc3\xa9t\xc3\xa9", b""];
     let mut total_reqs = 0usize;
     for round in 0..6u64 {
         let dir = tempfile::tempdir().unwrap();
@@ -637,7 +637,7 @@ fn client_search() {
         let mut model: BTreeMap<String, Vec<u8>> = BTreeMap::new();
         let mut hist: Vec<String> = Vec::new();
         let values: Vec<Vec<u8>> = vec![b"v".to_vec(), b"".to_vec(), b"\r\n".to_vec(), vec![0xff, 0x00, 0xfe], b"$-1\r\n".to_vec(), vec![b'x'; 3000], b"OK".to_vec()];
-        let keys = ["k0", "k1", "k2", "\u{e9}t\u{e9}"];
+        let keys = ["k0", "k1", "", "\u{e9}t\u{e9}"];      // the empty string is a key like any other
         let mut x: u64 = 88172645463325252;
         let mut next = move |n: u64| { x ^= x << 13; x ^= x >> 7; x ^= x << 17; x % n };
         for _ in 0..200 {
